@@ -20,7 +20,7 @@ OBLIGATIONS = [
        bounds="2 peptides (12 and 10 residues, CA + CB per residue) x mobile sequence {identical, one deletion, two dissimilar substitutions, two-residue insertion, truncated at both ends} x 0..2 displaced residues x 1 or 2 chains x array / stack: anchors are increasing one-to-one pairs of CA atoms of corresponding residues in corresponding chains, the returned transformation is the superimposition on exactly the returned anchors and reproduces the returned structure, every undisturbed copy of a fixed residue lands on it (5e-3)"),
     SX("sx_degenerate", "sx_c16", "ob_degenerate", cls="E", quick=200, parts=4,
        functions=[S + "superimpose.py:superimpose/_get_rotation_matrices (SVD + reflection correction; real numpy / LAPACK)"],
-       bounds="7 point sets (general, planar ring, planar irregular, collinear, two atoms, one atom, mirror-ambiguous) x 5 rotation axes x 5 angles (0, pi, pi/2, 2, pi-0.001) x with / without an extra atom outside the anchor set: rotation orthonormal with determinant +1, rigid copy fitted back with RMSD < 2e-3, the off-plane atom of planar anchors returns to its place (no mirror image)"),
+       bounds="7 point sets (general, planar ring, planar irregular, collinear, two atoms, one atom, mirror-ambiguous) x 5 rotation axes x 5 angles (0, pi, pi/2, 2, pi-0.001) x with / without an extra atom outside the anchor set: rotation orthonormal with determinant +1, rigid copy fitted back with RMSD < 2e-3, the off-plane atom of planar anchors returns to its place (no mirror image); a DEFORMED copy of each set is fitted with an RMSD over the anchors that is not above the closed-form optimum (singular values of the covariance, float64) by more than 2e-3; apply() on integer / float arrays, stack-shaped arrays and atom arrays == 4x4 form; hand-made transformations from integer / float rotation matrices and translations"),
 ]
 EXPLANATION = "C16 (algebraic clauses symbolically; properness / rigid copies / anchor bookkeeping on concrete point sets): the returned transformation equals its 4x4 matrix form, reproduces the fitted coordinates, acts model-wise, and centres the anchor atoms."
 ASSUMPTIONS = ["real-number semantics; the optimality / properness of the rotation (SVD + reflection correction) is NOT decided"]
